@@ -27,7 +27,7 @@ one_prop() {
 }
 declare -A byprop
 for id in $ids; do
-  p=$(python3 -c "import json;print(json.load(open('/verif/seeded/$id/meta.json'))['breaks_property'])")
+  p=$(python3 -c "import json;m=json.load(open('/verif/seeded/$id/meta.json'));print(m.get('check_property',m['breaks_property']))")
   byprop[$p]="${byprop[$p]} $id"
 done
 n=0
